@@ -478,10 +478,8 @@ def run(chk):
     _dispatch(chk)
 
     def th_witness():
-        import subprocess
-        from pyvc.core import NATIVE_PY
-        p = subprocess.run([NATIVE_PY, "-c", _WITNESS], capture_output=True, text=True, timeout=900, cwd=loader.REPO)
-        out = p.stdout
+        from pyvc.core import native
+        out = native(_WITNESS, timeout=1800)
         if "CONFIRMED" in out and "NOT-CONFIRMED" not in out:
             fails = out.strip().splitlines()[-1]
             raise Refuted("rhs-not-evaluable:" + fails.replace("CONFIRMED ", ""),
